@@ -83,16 +83,48 @@ func c18(w *core.World, r *core.Report) {
 		if _, isGo := c.(*ssa.Go); isGo {
 			return false
 		}
-		if core.CalleeIs(c, kDrvDiscard, kDrvClose) {
+		// Close stands in for Discard only where the session is known to be dead (the error text was found to contain
+		// "EOF": a discard cannot be sent any more). A Close chosen for any other error (a timeout, a wider
+		// 'connection error' classification) leaves the edits in a candidate that lives on in the device.
+		closeOK := func() bool {
+			for _, a := range core.GuardAtoms(c) {
+				if !a.True {
+					continue
+				}
+				for _, oc := range core.OriginCalls(a.Cond) {
+					if !core.CalleeIs(oc, "strings.Contains") {
+						continue
+					}
+					if args := core.CallArgs(oc); len(args) == 2 {
+						if t, isC := core.ConstString(args[1]); isC && t == "EOF" {
+							return true
+						}
+						for _, o := range core.Origins(args[1]) {
+							if t, isC := core.ConstString(o); isC && t == "EOF" {
+								return true
+							}
+						}
+					}
+				}
+			}
+			return false
+		}
+		if core.CalleeIs(c, kDrvDiscard) {
 			return true
+		}
+		if core.CalleeIs(c, kDrvClose) {
+			return closeOK()
 		}
 		if g := c.Common().StaticCallee(); g != nil && g.Blocks != nil {
 			// wrappers: ncTarget.discardCandidate always discards; ncTarget.Close closes the driver (when there is one)
-			if alwaysCalls(g, 0, kDrvDiscard, kDrvClose) {
+			if alwaysCalls(g, 0, kDrvDiscard) {
 				return true
 			}
+			if alwaysCalls(g, 0, kDrvDiscard, kDrvClose) {
+				return closeOK()
+			}
 			if core.FuncKey(g) == "datastore/target.ncTarget.Close" && mayCall(g, 0, kDrvClose) {
-				return true
+				return closeOK()
 			}
 		}
 		return false
